@@ -100,8 +100,10 @@ pub fn sample_point(rng: &mut Rng, kind: Kind, n: usize) -> Pt {
     let ct = cone_t(kind, n);
     let depth_s = *rng.choose(&[1.0, 0.3, 1e-2, 1e-4, 1e-6, 1e-8]);
     let depth_z = *rng.choose(&[1.0, 0.3, 1e-2, 1e-4, 1e-6, 1e-8]);
-    let mag_s = rng.logpos(-6.0, 6.0);
-    let mag_z = rng.logpos(-6.0, 6.0);
+    // one pair in eight lives at an extreme overall scale (the cones are scale invariant; absolute thresholds are not)
+    let wide = rng.bool(0.125);
+    let mag_s = if wide { rng.logpos(-30.0, 30.0) } else { rng.logpos(-6.0, 6.0) };
+    let mag_z = if wide { rng.logpos(-30.0, 30.0) } else { rng.logpos(-6.0, 6.0) };
     let mut s = vc::sample_interior(&ct, rng, false, 1.0, depth_s);
     let mut z = vc::sample_interior(&ct, rng, true, 1.0, depth_z);
     if kind == Kind::NN {
